@@ -181,6 +181,9 @@ func (w *World) userControl(ui int, op *UserOp) {
 					// Dup is documented as unsupported with more than one listener
 					return wantErr(err, errorx.ErrUnsupportedOp)
 				}
+				if err != nil && w.k.FaultsFired["fcntl_dupfd:EMFILE"] > 0 && errors.Is(err, unix.EMFILE) {
+					return "" // the injected failure of the duplication itself
+				}
 				if err != nil || fd < 0 {
 					return "want a descriptor"
 				}
